@@ -58,6 +58,8 @@ def project_list(tier):
     out.append(("subplan_tree", ("f_subplan", {"inputs": "tree"})))
     out.append(("selfprod", ("f_selfprod", {})))
     out.append(("pc4", ("f_prodcons4", {})))
+    for lead in (0, 2, 4):
+        out.append((f"deferwin{lead}", ("f_deferwin", {"lead": lead})))
     # incremental builds: a first build with the default schedule, user edits, then every schedule
     out.append(("chain:edit-outputs", ("f_chain", {"__edits__": [("write", "c.txt", "user\n"), ("write", "a.txt", "user\n")]})))
     out.append(("chain:edit-src+out", ("f_chain", {"__edits__": [("write", "src.txt", "edited\n"), ("remove", "c.txt")]})))
@@ -67,6 +69,12 @@ def project_list(tier):
 
 def configs(name, tier):
     jobs = (1, 4) if name == "pc4" else (1, 2, 3)
+    if name.startswith("deferwin"):
+        # two base schedules with four jobs, and the sequential one
+        yield {"njob": 1, "resources": None}
+        yield {"njob": 4, "resources": None}
+        yield {"njob": 4, "resources": None, "policy": "fifo"}
+        return
     if name == "resource":
         # only availabilities that satisfy every demand: an unsatisfiable demand legitimately
         # leaves a step pending, which is a matter of configuration, not of scheduling
@@ -242,7 +250,16 @@ def finish(total, tier, seed):
         graphs = {h8(e["graph"]): e for e in succ}
         if len(graphs) > 1:
             a, b = list(graphs.values())[:2]
+            diff_all = canon.diff_graphs(a["graph"], b["graph"], 1000)
+            digest_only = all(
+                isinstance(d, dict) and d.get("a") and d.get("b")
+                and [x for x in d["a"] if "inp_digest" not in x] == [x for x in d["b"] if "inp_digest" not in x]
+                for d in diff_all) and len(fss_of(succ)) == 1
             total.violation(
+                # one root cause under many projects: an input that is not available (OUTDATED,
+                # detached) at the moment its consumer completes is left out of the stored input
+                # digest; states, relations and files agree
+                "C02|inp-digest-depends-on-schedule" if digest_only else
                 f"C02|{name}|graph-depends-on-schedule",
                 {"project": name, "why": "graph after a successful build depends on schedule",
                  "a": {"cfg": a["cfg"], "prefix": a["prefix"]}, "b": {"cfg": b["cfg"], "prefix": b["prefix"]},
@@ -268,6 +285,10 @@ def finish(total, tier, seed):
                 None,
             )
     total.extra.pop("oc", None)
+
+
+def fss_of(entries):
+    return {h8(e["fs"]) for e in entries}
 
 
 def coverage_extra(total, tier):
